@@ -231,9 +231,13 @@ func (b *bloomcache) hasCached(k cid.Cid) (has bool, ok bool) {
 		// in case of invalid key is forwarded deeper
 		return false, false
 	}
+	// Load the filter before checking active, and trust a negative answer only
+	// if the same filter is still live afterwards: Rebuild deactivates and then
+	// swaps in an empty filter, which must never be mistaken for the active one.
+	bl := b.bloom.Load()
 	if b.BloomActive() {
-		blr := b.bloom.Load().HasTS(k.Hash())
-		if !blr { // not contained in bloom is only conclusive answer bloom gives
+		blr := bl.HasTS(k.Hash())
+		if !blr && b.bloom.Load() == bl { // not contained in bloom is only conclusive answer bloom gives
 			b.hits.Inc()
 			return false, true
 		}
